@@ -2081,7 +2081,7 @@ class Builder(object):
             value =  abs(Convert2Num(tokens[index])) #convert text to number if valid format
             index +=1
 
-            if isinstance(value, str):
+            if isinstance(value, str) or value != value or value == float('inf'):
                 msg = "Error building %s. invalid repeat %s." %\
                       (command, value)
                 raise excepting.ParseError(msg, tokens, index)
